@@ -412,6 +412,9 @@ pub fn triggers(src: &str, root: &SyntaxNode) -> Vec<&'static str> {
             {
                 add("R61")
             }
+            // R3 (float form): a float written with a trailing dot before a field access on the next
+            // line (`2.<nl>.at(0)`) is joined to `2..at(0)`
+            K::FieldAccess if f.node.children().next().is_some_and(|t| t.kind() == K::Float && t.text().ends_with('.')) => add("R3"),
             // R12: a comment directly inside a heading (between marker and body)
             K::Heading
                 if f.node.children().any(|c| {
